@@ -143,6 +143,36 @@ func c17MoreScenarios() []c17Scn {
 		}
 	}})
 
+	// the same with more than a hundred slot records held, so that the clean-up run by the head event handler
+	// really removes old ones while the message job records a new slot and the verification looks one up
+	scns = append(scns, c17Scn{name: "synccommitteemessenger/record-lookup-cleanup-over-threshold", setup: func(ctx context.Context) []func() {
+		env := &c20SyncEnv{sigSel: c20FindSig(8, true), sigNot: c20FindSig(8, false)}
+		sp := &specProvider{m: baseSpec(12*time.Second, 32)}
+		ct := newChainTime(0, 12*time.Second, 32)
+		accts := &accountsTable{byIndex: map[phase0.ValidatorIndex]*hAccount{1: newAccount("W", "v1", 1)}}
+		agg, err := standardsyncaggregator.New(ctx, standardsyncaggregator.WithLogLevel(zerolog.Disabled), standardsyncaggregator.WithMonitor(nullmetrics.New()), standardsyncaggregator.WithSpecProvider(sp),
+			standardsyncaggregator.WithBeaconBlockRootProvider(env), standardsyncaggregator.WithContributionAndProofSigner(env), standardsyncaggregator.WithValidatingAccountsProvider(accts),
+			standardsyncaggregator.WithSyncCommitteeContributionProvider(env), standardsyncaggregator.WithSyncCommitteeContributionsSubmitter(env), standardsyncaggregator.WithChainTime(ct))
+		must(err)
+		msgr, err := standardsyncmessenger.New(ctx, standardsyncmessenger.WithLogLevel(zerolog.Disabled), standardsyncmessenger.WithMonitor(nullmetrics.New()), standardsyncmessenger.WithProcessConcurrency(2),
+			standardsyncmessenger.WithChainTimeService(ct), standardsyncmessenger.WithSyncCommitteeAggregator(agg), standardsyncmessenger.WithSpecProvider(sp), standardsyncmessenger.WithBeaconBlockRootProvider(env),
+			standardsyncmessenger.WithSyncCommitteeMessagesSubmitter(env), standardsyncmessenger.WithSyncCommitteeSubscriptionsSubmitter(env), standardsyncmessenger.WithValidatingAccountsProvider(accts),
+			standardsyncmessenger.WithSyncCommitteeSelectionSigner(env), standardsyncmessenger.WithSyncCommitteeRootSigner(env))
+		must(err)
+		members := map[phase0.ValidatorIndex][]phase0.CommitteeIndex{1: {3}}
+		for s := phase0.Slot(1); s <= 110; s++ {
+			msgr.UpdateSyncCommitteeDataRecord(s, root(byte(s)), members)
+		}
+		return []func(){
+			func() { msgr.RemoveHistoricDataUsedForSlotVerification(150) },
+			func() {
+				msgr.UpdateSyncCommitteeDataRecord(151, root(151), members)
+				_, _ = msgr.GetDataUsedForSlot(5)
+				_, _ = msgr.GetDataUsedForSlot(149)
+			},
+		}
+	}})
+
 	// controller: a head event (possibly a reorg) arriving while an attestation job runs and while shutdown
 	// asks for pending attestations
 	for _, reorg := range []bool{false, true} {
